@@ -529,6 +529,7 @@ class PARSE_ADDITION:
     """unknown keys: dropped (addition None), rejected (False), kept raw (True), or converted by the
     declared addition type with the invalid_values policy; excluded names are never carried."""
     self_model = "BaseParser2"
+    replay = "parse_addition"
     cases = _pa_cases()
     setup = staticmethod(_pa_setup)
     returns_by_case = {cn: _pa_post(cn)[0] for cn in _pa_cases()}
@@ -554,6 +555,7 @@ def _pp_setup(ex, frame):
 @contract("utype/parser/func.py", "FunctionParser.parse_pos_type", props=["C11", "C10", "C04"])
 class PARSE_POS_TYPE:
     """*args items: converted by the declared type; offenders dropped / kept raw / rejected"""
+    replay = "parse_pos_type"
     cases = _pp_cases()
     setup = staticmethod(_pp_setup)
     returns_by_case = dict({cn: _simple_policy_post("accepts(self.position_type, value, context)", "converted(self.position_type, value, context)",
@@ -564,3 +566,173 @@ class PARSE_POS_TYPE:
     only_raises = ["ParseError"]
     modifies = ["context.errors"]
     frame = ["value", "self"]
+
+
+# ------------------------------------------------------------------------------------ Field.get_alias (C05: the output name of a field)
+
+def _install_field_alias(world):
+    m = world.models["Field"]
+    m.field_descs.setdefault("alias", NONE)
+    m.field_descs.setdefault("alias_generator", NONE)
+
+
+_C.INSTALLERS.append(_install_field_alias)
+
+
+@specfn("generated_alias")
+def _generated_alias(ex, fr, gen, attname):
+    """what the alias generator returns for this attribute name (call model `pure`)"""
+    call1 = z3.Function("call1", V, V, V)
+    return VObj(call1(ex.box(gen), ex.box(attname)))
+
+
+def _ga_cases():
+    out = {}
+    for an, ad in (("alias", Str()), ("no-alias", NONE)):
+        for fn, fd in (("field-generator", Obj(not_none=True, name="fgen")), ("no-field-generator", NONE)):
+            for gn, gd in (("class-generator", Obj(not_none=True, name="cgen")), ("no-class-generator", NONE)):
+                out["%s,%s,%s" % (an, fn, gn)] = dict(self=Rec("Field", alias=ad, alias_generator=fd), attname=STR, generator=gd)
+    return out
+
+
+def _ga_post(case):
+    an, fn, gn = case.split(",")
+    if an == "alias":
+        return {"declared_alias_wins": "implies(len(self.alias) > 0, result is self.alias)"}
+    gen = "self.alias_generator" if fn == "field-generator" else ("generator" if gn == "class-generator" else None)
+    if gen is None:
+        return {"falls_back_to_the_attribute_name": "result is attname"}
+    g = "generated_alias(%s, attname)" % gen
+    return {"generated_name_or_attribute_name": "(result is %s) if (isinst(%s, str) and truthy(%s)) else (result is attname)" % (g, g, g)}
+
+
+@contract(F, "Field.get_alias", props=["C05"])
+class GET_ALIAS:
+    """the output name of a field (`stored under the output name`): the declared alias; else what the field's own alias
+    generator (before the class-level one) makes of the attribute name, if that is a non-empty string; else the attribute name"""
+    cases = _ga_cases()
+    calls = "pure"
+    returns_by_case = {cn: _ga_post(cn) for cn in _ga_cases()}
+    only_raises = ["Exception"]
+    raises = {"Exception": {"only_from_a_generator": "self.alias_generator is not None or generator is not None"}}
+    frame = ["self"]
+    assumes = ["an alias generator is a deterministic function of the attribute name (call model `pure`)"]
+
+    @staticmethod
+    def setup(ex, frame):
+        for nm in ("alias_generator",):
+            g = frame.env["self"].fields[nm]
+            if isinstance(g, VObj):
+                ex.assume(sym.truthy_f(g.t))
+                ex.assume(sym.callable_f(g.t))
+        g = frame.env["generator"]
+        if isinstance(g, VObj):
+            ex.assume(sym.truthy_f(g.t))
+            ex.assume(sym.callable_f(g.t))
+
+
+# ------------------------------------------------------------------------------------ FunctionParser.parse_result (C01 / C04: the return annotation)
+
+def _install_fp(world):
+    m = world.models["FunctionParser"]
+    m.field_descs.setdefault("return_type", NONE)
+    m.field_descs.setdefault("obj", OBJ)
+
+
+_C.INSTALLERS.append(_install_fp)
+
+
+@contract("utype/parser/func.py", "FunctionParser.parse_result", props=["C01", "C04", "C10"])
+class PARSE_RESULT:
+    """`the returned value conforms to the return annotation`: with a return type, what the body returned is handed back
+    CONVERTED by that type or the call fails with a ParseError -- at once, also when errors are being collected (a value
+    that could not be typed is never returned); without a return type the value passes through unchanged."""
+    cases = {"typed,fail-fast": dict(self=Rec("FunctionParser", return_type=Cls(name="rtype")), result=OBJ,
+                                     context=CTX(collect_errors=FALSE, max_errors=NONE)),
+             "typed,collect": dict(self=Rec("FunctionParser", return_type=Cls(name="rtype")), result=OBJ,
+                                   context=CTX(collect_errors=TRUE, max_errors=NONE)),
+             "untyped": dict(self=Rec("FunctionParser", return_type=NONE), result=OBJ, context=CTX())}
+    returns_by_case = {
+        "typed,fail-fast": {"accepted": "accepts(self.return_type, old(result), context)",
+                            "converted": "result is converted(self.return_type, old(result), context)",
+                            "nothing_recorded": "len(context.errors) == old(len(context.errors))"},
+        "typed,collect": {"accepted": "accepts(self.return_type, old(result), context)",
+                          "converted": "result is converted(self.return_type, old(result), context)",
+                          "nothing_recorded": "len(context.errors) == old(len(context.errors))"},
+        "untyped": {"unchanged": "result is old(result)"},
+    }
+    # (the parameter is called `result`, which is also the spec's name for the returned value: old(result) is the parameter)
+    raises = {"ParseError": {"only_a_rejected_return_value": "self.return_type is not None and not accepts(self.return_type, old(result), context)"}}
+    only_raises = ["ParseError"]
+    modifies = ["context.errors"]
+    tags = {"accepted": ["C01"], "converted": ["C01"], "nothing_recorded": ["C10"], "only_raises": ["C04"]}
+
+    @staticmethod
+    def setup(ex, frame):
+        t = frame.env["self"].fields["return_type"]
+        if isinstance(t, VCls):
+            ex.assume(sym.truthy_f(t.t))
+
+
+# ------------------------------------------------------------------------------------ FunctionParser.sync_call (C04: the body is not entered when parsing fails)
+
+from contracts.parsing import DICT as DICT_
+from pyvc.sym import VFunc
+
+@contract("utype/parser/func.py", "FunctionParser.get_params", props=["C04"])
+class GET_PARAMS_IFACE:
+    """interface: the parsed (args, kwargs) of a call, or a ParseError; the decorated function itself is not called here"""
+    cases = {"any": dict(self=Rec("FunctionParser"), args=OBJ, kwargs=OBJ, context=Rec("RuntimeContext"), first_reserve=OBJ, parse_params=OBJ)}
+    result = Tup(TUPLE, DICT_)
+    ghost_effect_on_return = {"params_parsed": 1}      # definitional: counts parameter parses that RETURNED
+    only_raises = ["ParseError"]
+    modifies = ["context.errors"]
+    trusted = "parameter binding (C08 is not applicable to this technique): interface only -- a pair or a ParseError; never calls self.obj"
+
+
+@contract("utype/parser/func.py", "FunctionParser.resolve_forward_refs", props=["C04"])
+class FP_RESOLVE_IFACE:
+    cases = {"any": dict(self=Rec("FunctionParser"))}
+    only_raises = []
+    trusted = "interface: resolution of pending references (C17) does not raise with ignore_errors=True and does not call self.obj"
+
+
+def _body(ex):
+    def call(ex_, a, k):
+        # obligation at the call of the decorated function: its parameters have been parsed (get_params has RETURNED) before
+        ex_.oblige("pre", "body_entered_only_after_the_parameters_were_parsed", ex_.ghost_get("params_parsed") >= 1,
+                   exit_text="call:function body", clause="get_params returned before the decorated function is entered")
+        ex_.ghost["body_entered"] = ex_.ghost_get("body_entered") + 1
+        if ex_.choose([z3.BoolVal(True), z3.BoolVal(True)]) == 1:
+            from pyvc.exec import PyExc
+            from pyvc.sym import VExc
+            t = ex_.fresh("ecls", V)
+            ex_.assume(sym.sub(t, ex_.world.classes.of_py(Exception).t))
+            raise PyExc(VExc(VCls(t, name="<=Exception:body"), {}, origin="function body"), None)
+        return VObj(ex_.fresh("body_result", V))
+    return VFunc("decorated function", call)
+
+
+@specfn("body_entered")
+def _body_entered(ex, fr):
+    return VInt(ex.ghost_get("body_entered"))
+
+
+@contract("utype/parser/func.py", "FunctionParser.sync_call", props=["C04", "C01"])
+class SYNC_CALL:
+    """`if any parameter fails the body does not run`: the decorated function is entered exactly once, and only after
+    get_params has returned; a ParseError from the parameters leaves it un-entered; with parse_result the returned value is
+    the parse_result of what the body returned."""
+    cases = {"%s,%s" % (rn, cn): dict(self=Rec("FunctionParser", obj=Const(_body, name="body"), return_type=rt), args=OBJ, kwargs=OBJ,
+                                      context=CTX(collect_errors=cd, max_errors=NONE), first_reserve=OBJ, parse_params=OBJ, parse_result=pr)
+             for rn, rt, pr in (("parse-result", Cls(name="rtype"), TRUE), ("raw-result", NONE, FALSE))
+             for cn, cd in (("fail-fast", FALSE), ("collect", TRUE))}
+    returns = {"entered_exactly_once": "body_entered() == old(body_entered()) + 1"}
+    raises = {"ParseError": {"entered_at_most_once": "body_entered() <= old(body_entered()) + 1"}}
+    only_raises = ["Exception"]
+    modifies = ["context.errors"]
+    assumes = ["the decorated function is an unknown callable (returns anything or raises anything)", "get_params / resolve_forward_refs: interfaces"]
+
+    @staticmethod
+    def setup(ex, frame):
+        ex.assume(ex.ghost_get("params_parsed") == 0)
